@@ -39,7 +39,7 @@ func runC11(c *Ctx) {
 		"for the requested address LAN.Contains, not the network address, not the broadcast address; for the sequential search the cursor idiom nextIP < broadcast starting at FirstIP. " +
 		"(ack) the acknowledgement section of handleRequest is entered from each operation arm only with the lease in state Discover or Allocated established by a dominating test, the address acknowledged is lease.Addr.IP, taken from IPOffer only on the Discover path, and the refusal condition of the selecting arm contains the hardware, transaction-id, offered-address and leased-address mismatches. " +
 		"(free) DECLINE frees a lease only when server id, address and hardware address match; expiry frees by DHCPExpiry. (interleavings, two clauses) an address on offer to two clients is acknowledged once: findByIP sees outstanding offers or the commit of an offer is preceded by findByIP(lease.IPOffer) and a NAK when another lease holds it; handleDiscover keeps an old IPOffer only for an outstanding offer (or every site that frees a lease clears it). Not decided: uniqueness over arbitrary interleavings beyond these clauses, timing."
-	r.Rule("offer", "addresses are offered only if free in the lease table, unknown to the session and inside the subnet", 15)
+	r.Rule("offer", "addresses are offered only if free in the lease table, unknown to the session, not reserved and inside the subnet", 19)
 	r.Rule("ack", "acknowledgements require an outstanding offer or lease of the same client, address and transaction", 12)
 	r.Rule("free", "leases are freed only by their owner's DECLINE or by expiry", 4)
 
@@ -89,6 +89,30 @@ func runC11(c *Ctx) {
 	} else {
 		r.Fatal("newSubnet not found")
 	}
+	// what "reserved" means: the helper the guards call compares the candidate with the router's and with our own address
+	if rs := c.P.Method(dhcpRel, "Handler", "reserved"); rs != nil {
+		router, own := false, false
+		core.EachInstr(rs, func(i ssa.Instruction) {
+			if bo, ok := i.(*ssa.BinOp); ok && bo.Op == token.EQL {
+				t := norm(bo.X) + " " + norm(bo.Y)
+				if strings.Contains(t, "NICInfo.RouterAddr4.IP") && strings.Contains(t, "arg0") {
+					router = true
+				}
+				if strings.Contains(t, "NICInfo.HostAddr4.IP") && strings.Contains(t, "arg0") {
+					own = true
+				}
+			}
+		})
+		st := core.Proved
+		if !router || !own {
+			st = core.Violated
+		}
+		r.Add(core.Obligation{Rule: "offer", Key: "offer reserved addresses are the router's and our own", Func: core.FuncName(rs), Pos: c.P.Pos(rs.Pos()), Status: st,
+			Basis: "reserved(ip) compares ip with NICInfo.RouterAddr4.IP and NICInfo.HostAddr4.IP", Detail: fmt.Sprintf("reserved() compares with the router's address: %v, with our own: %v", router, own)})
+	} else {
+		r.Add(core.Obligation{Rule: "offer", Key: "offer reserved addresses are the router's and our own", Func: "-", Status: core.Violated,
+			Detail: "allocIPOffer has no test that keeps the router's and our own address out of the offers other than the session's host table, whose entry for a router that stays silent is purged like any other host's: a DISCOVER asking for the router's address is then offered it"})
+	}
 	nReq, nSeq := 0, 0
 	core.EachInstr(alloc, func(i ssa.Instruction) {
 		s, ok := i.(*ssa.Store)
@@ -104,8 +128,9 @@ func runC11(c *Ctx) {
 				{"not the network address", `^!\(arg1==\(net/netip\.Prefix\)\.Addr\(arg0\.subnet\.SubnetConfig\.LAN\)\)$`},
 				{"not the broadcast address", `^!\(arg1==arg0\.subnet\.broadcast\)$`},
 				{"no host tracked by the session", `^\(\(packet\.Session\)\.FindIP\(recv\.session,arg1\)==nil\)$`},
+				{"not the router's or our own address", `^!\(dhcp4_spoofer\.Handler\)\.reserved\(recv,arg1\)$`},
 			})
-			dnf := pathDNF(i.Block())
+			dnf := pathDNFDeep(i.Block())
 			bad := []string{}
 			for _, d := range dnf {
 				switch {
@@ -143,6 +168,7 @@ func runC11(c *Ctx) {
 			requireGuards(c, "offer", key, last, []guardReq{
 				{"below the broadcast address", `^\(net/netip\.Addr\)\.Less\(arg0\.subnet\.nextIP,arg0\.subnet\.broadcast\)$`},
 				{"no host tracked by the session", `^\(\(packet\.Session\)\.FindIP\(recv\.session,arg0\.subnet\.nextIP\)==nil\)$`},
+				{"not the router's or our own address", `^!\(dhcp4_spoofer\.Handler\)\.reserved\(recv,arg0\.subnet\.nextIP\)$`},
 			})
 			// the cursor moves past the address just picked before the search is left: an outstanding offer is recorded
 			// nowhere else, so the next client's search must start behind it
@@ -164,7 +190,7 @@ func runC11(c *Ctx) {
 				r.Add(core.Obligation{Rule: "offer", Key: "offer " + key + " advances the cursor", Func: core.FuncName(alloc), Pos: c.P.Pos(core.PosOf(last)), Status: stA,
 					Basis: "nextIP = nextIP.Next() on every path from the pick to the end of the search", Detail: "the allocation cursor is left on the address just offered: the next client's search starts at the same address, which no table records as taken until it is acknowledged"})
 			}
-			dnf := pathDNF(pred)
+			dnf := pathDNFDeep(pred)
 			bad := []string{}
 			for _, d := range dnf {
 				free := (strings.Contains(d, "findByIP(recv,arg0.subnet.nextIP)==nil)") && !strings.Contains(d, "!((dhcp4_spoofer.Handler).findByIP(recv,arg0.subnet.nextIP)==nil)")) ||
